@@ -101,4 +101,43 @@ def obligations(lengths=(1, 2, 4)):
         V = np.asarray(V, dtype=object)
         ok = V.shape == (n, 2) and list(V[0]) == list(V0) and all(str(V[i][j]) == 'y_%d_%d' % (i, j) for i in range(1, n) for j in range(2))
         ob('len%d:rows-are-V0-then-the-solution-at-each-grid-time' % n, ok, 'returned array %r' % (V.tolist(),), dict(wit, observed='returned %r' % (V.tolist(),)))
+    # an INTEGER initial vector (a pure initial condition: 0/1 per node) must not make the returned rows integers: the solution values
+    # are floats whatever the dtype of V0
+    t0 = time.time()
+    log = []
+
+    class StubODE2:
+        def __init__(self, f, jac=None):
+            self.f, self.k = f, 0
+            log.append(self)
+
+        def set_integrator(self, name, **kw):
+            return self
+
+        def set_initial_value(self, y, t=0.0):
+            self.y0 = y
+            return self
+
+        def set_f_params(self, *a):
+            return self
+
+        def successful(self):
+            return True
+
+        def integrate(self, t, step=False, relax=False):
+            self.k += 1
+            return np.array([0.5 ** self.k, 1 - 0.5 ** self.k], dtype=float)
+    orig = A.integrate.ode
+    A.integrate.ode = StubODE2
+    try:
+        try:
+            V = np.asarray(A._my_odeint_(lambda X, t: X, np.array([1, 0]), [0.0, 1.0, 2.0]))
+            want = np.array([[1, 0], [0.5, 0.5], [0.25, 0.75]], dtype=float)
+            ok = V.shape == (3, 2) and np.allclose(np.asarray(V, dtype=float), want)
+            detail = 'returned %r for V0 = array([1, 0]) (int) and solution values 0.5, 0.25 ...: expected %r' % (V.tolist(), want.tolist())
+            ob('integer-initial-vector-keeps-float-solution', ok, detail, dict(V0=[1, 0], dtype='int', observed=detail))
+        except Exception as e:
+            ob('integer-initial-vector-keeps-float-solution', False, '%s: %s' % (type(e).__name__, e), status='undecided')
+    finally:
+        A.integrate.ode = orig
     return out
